@@ -164,7 +164,7 @@ class ProtoImporter:
                 # Import a VLSIR primitive to an ideal element, and convert its parameters
                 target = import_vlsir_primitive(ref.external)
                 remapped_params = import_primitive_params(target, params)
-                params = target.Params(**remapped_params)
+                params = target.Params(**import_scalar_literals(target, remapped_params))
 
             elif ref.external.domain in (
                 "hdl21.primitives",
@@ -172,7 +172,7 @@ class ProtoImporter:
             ):
                 # Retrieve the Primitive from `hdl21.primitives`, and convert its parameters
                 target = import_hdl21_primitive(ref.external)
-                params = target.Params(**params)
+                params = target.Params(**import_scalar_literals(target, params))
 
             else:  # Externally-defined `ExternalModule`
                 # These must be declared in our `Package` being imported. Look up its header-info from `ext_modules`.
@@ -258,6 +258,18 @@ def import_vlsir_primitive(pref: vlsir.utils.QualifiedName) -> Primitive:
         msg = f"Attempt to import invalid `hdl21.primitive` {pref.external.name}"
         raise RuntimeError(msg)
     return prim
+
+
+def import_scalar_literals(target: Primitive, params: Dict[str, Any]) -> Dict[str, Any]:
+    """String values of `Scalar`-typed primitive parameters were exported from `Literal`s.
+    Keep them `Literal`, rather than letting `Scalar` validation re-parse them as numbers."""
+    from ..scalar import Scalar
+
+    params = dict(params)
+    for name, param in target.Params.__params__.items():
+        if param.dtype in (Scalar, Optional[Scalar]) and isinstance(params.get(name), str):
+            params[name] = Literal(text=params[name])
+    return params
 
 
 def import_parameters(pparams: List[vlsir.Param]) -> Dict[str, Any]:
